@@ -141,12 +141,12 @@ inline size_t labelSizeOf(const std::string &lab) {
 }
 inline void put32(std::string &s, unsigned v) { for (int i = 0; i < 4; ++i) s += (char)((v >> (8 * i)) & 0xff); }
 // hand-made binary file: distinct pairs in shuffled order, labels = arbitrary bytes (C14) ; arbitrary: any length (C15)
-inline std::string genBinaryFile(sim::Rng &r, const std::string &lab, bool directed, bool arbitrary) {
+inline std::string genBinaryFile(sim::Rng &r, const std::string &lab, bool directed, bool arbitrary, bool forceBig = false) {
     size_t ls = labelSizeOf(lab);
     std::string out;
     std::vector<std::pair<unsigned, unsigned>> used;
     int recs = (int)r.below(13);
-    const bool big = !arbitrary && r.pm(80);
+    const bool big = !arbitrary && (r.pm(80) || forceBig);
     for (int i = 0; i < recs; ++i) {
         unsigned a = (unsigned)r.below(arbitrary ? 64 : 9), b = (unsigned)r.below(arbitrary ? 64 : 9);
         if (r.pm(150)) b = a;
@@ -187,7 +187,7 @@ inline sim::Plan genPlan(uint64_t seed, const std::string &profile, bool thoroug
         for (int i = 0; i < nops; ++i) {
             sim::Op o;
             o.k = "steps";
-            o.x = (int64_t)r.below(12);
+            o.x = (int64_t)r.below(14);
             o.a = (int64_t)r.below(1 << 16);
             o.b = (int64_t)r.below(1 << 16);
             int64_t algo = (int64_t)r.below(3);
@@ -221,18 +221,39 @@ inline sim::Plan genPlan(uint64_t seed, const std::string &profile, bool thoroug
     p.n0 = z < 8 ? 0 : z < 16 ? 1 : 2 + (int64_t)r.below(5);
     // size bound of the run: mostly small (the full pair-wise sweep is what finds one-sided updates), sometimes
     // medium, rarely large (sparse sweep above 24 vertices) so that nothing silently depends on "at most 8 vertices"
+    bool large = false;
+    int hub = -1;
     {
-        unsigned zz = (unsigned)r.below(100);
+        unsigned zz = (unsigned)r.below(1000);
         int64_t nmax = thorough ? 8 : 6;
         if (profile != "C18") {
-            if (zz < (thorough ? 12u : 5u)) nmax = 12;
-            else if (zz < (thorough ? 18u : 7u)) nmax = thorough ? 48 : 32;
+            if (zz < (thorough ? 100u : 40u)) nmax = 12;
+            else if (zz < (thorough ? 150u : 60u)) { nmax = 72; large = true; }
         }
         p.cfg["nmax"] = nmax;
         if (nmax > 8 && r.pm(700)) p.n0 = (int64_t)r.below((uint64_t)nmax + 1);
+        if (large) {
+            // large runs: up to 72 vertices, one or two hubs that collect long neighbour lists (thresholds such as
+            // "more than 16/32/64 entries" are crossed), sparse sweep
+            p.n0 = nmax - (int64_t)r.below(6);
+            hub = r.pm(300) ? 0 : (int)r.below((uint64_t)p.n0);
+            p.cfg["hub"] = hub + 1;
+        }
     }
-    const bool force = profile == "C16";
+    if (profile == "C18" && r.pm(12)) { // a shared graph above 1024 vertices (size thresholds inside the searches)
+        p.cfg["nmax"] = 1500;
+        p.n0 = 1030 + (int64_t)r.below(400);
+        p.cfg["huge"] = 1;
+    }
+    // very long histories (counters that trigger "every 1024th update" and the like): small graphs, few observer sweeps
+    const bool longRun = !large && r.pm(4) && (profile == "C01" || profile == "C02" || profile == "C03" || profile == "C04" || profile == "C05" || profile == "C06" || profile == "C16");
+    // multiplicities near the ends of the 32-bit range
+    const bool extreme = (kind == MULTI) && r.pm(40) && profile != "C18";
+    p.cfg["extreme"] = extreme;
+    const bool forceMix = profile == "C17" && r.pm(150); // forced duplicates mixed with every mutator: memory safety only
+    const bool force = profile == "C16" || forceMix;
     p.cfg["force"] = force;
+    p.cfg["nomodel"] = forceMix;
     p.cfg["exact"] = ((profile == "C05" && r.pm(300)) || (profile == "C06" && r.pm(400))) ? 0 : 1;
     p.cfg["orphans"] = (profile == "C07" && r.pm(500)) ? 1 : 0;
     p.cfg["nonneg"] = (profile == "C17" || profile == "C18" || profile == "C07") ? (r.pm(700) ? 1 : 0) : 0;
@@ -249,17 +270,42 @@ inline sim::Plan genPlan(uint64_t seed, const std::string &profile, bool thoroug
     else if (profile == "C17") { pAlg = rate({100, 200, 300}); pSnap = rate({20, 50}); pPersist = rate({30, 60}); pReplica = rate({0, 30}); pIo = rate({0, 40, 80}); }
     else if (profile == "C18") { pAlg = rate({100, 200, 300}); pSnap = rate({20, 50}); pPersist = rate({30, 60}); pReplica = rate({0, 30}); pIo = rate({0, 30}); }
     else if (profile == "C13" || profile == "C14" || profile == "C15") { pIo = rate({150, 300, 450}); pPersist = rate({100, 200}); nops = 1 + (int)r.below(thorough ? 40 : 20); }
-    const int pNoSweep = (profile == "C13" || profile == "C14" || profile == "C15") ? 0 : rate({0, 0, 0, 300, 600});
+    int pNoSweep = (profile == "C13" || profile == "C14" || profile == "C15") ? 0 : rate({0, 0, 0, 300, 600});
+    if (large) { nops = 20 + (int)r.below(thorough ? 160 : 80); if (pNoSweep < 300) pNoSweep = 300; }
+    if (longRun) { nops = 1100 + (int)r.below(1600); pNoSweep = 880; pSnap = 0; pPersist = 0; pReplica = profile == "C06" ? 3 : 0; pReject = 0; p.cfg["long"] = 1; }
     p.cfg["p_nosweep"] = pNoSweep;
     p.cfg["p_reject"] = pReject; p.cfg["p_snapshot"] = pSnap; p.cfg["p_persist"] = pPersist; p.cfg["p_replica"] = pReplica; p.cfg["p_alg"] = pAlg; p.cfg["p_io"] = pIo;
-    GenCfg gc = makeGenCfg(kind, directed, force, r, true, profile == "C03" ? 3 : 1);
+    GenCfg gc = makeGenCfg(kind, directed, force && !forceMix, r, true, profile == "C03" ? 3 : 1);
+    gc.hub = hub;
+    gc.extreme = extreme;
     sim::Op prev;
+    if (large) { // bursts: the hub(s) are connected to (almost) every vertex first, in a seeded rotation and orientation
+        int hubs = 1 + (int)r.below(2);
+        for (int h = 0; h < hubs; ++h) {
+            const int64_t hv = h == 0 ? hub : (int64_t)r.below((uint64_t)p.n0);
+            const int64_t rot = (int64_t)r.below((uint64_t)p.n0);
+            const unsigned skip = (unsigned)r.below(150);
+            const bool down = r.pm(500);
+            for (int64_t k = 0; k < p.n0; ++k) {
+                if (r.pm(skip)) continue;
+                sim::Op o;
+                o.k = (kind == MULTI && r.pm(300)) ? "addmul" : "add";
+                const int64_t other = ((down ? p.n0 - 1 - k : k) + rot) % p.n0;
+                const bool flip = r.pm(500);
+                o.a = flip ? other : hv;
+                o.b = flip ? hv : other;
+                o.x = r.pm(100) ? 0 : (int64_t)(1 + r.below(63));
+                o.y = F_NOSWEEP | ((force && r.pm(300)) ? F_FORCE : 0);
+                p.ops.push_back(o);
+            }
+        }
+    }
     const bool templ = p.cls == "LD" || p.cls == "LU";
     for (int i = 0; i < nops; ++i) {
         unsigned t = (unsigned)r.below(1000);
         sim::Op o;
         if (t < (unsigned)pReject) {
-            o.k = "reject"; o.x = (int64_t)r.below(256); o.a = (int64_t)r.below(1024); o.b = (int64_t)r.below(1024); o.y = (int64_t)r.below(4);
+            o.k = "reject"; o.x = (int64_t)r.below(256); o.a = (int64_t)r.below(1024); o.b = (int64_t)r.below(1024); o.y = (int64_t)r.below(8);
         } else if ((t -= (unsigned)pReject) < (unsigned)pSnap) {
             o.k = r.pm(500) ? "copy" : "assign"; o.x = (int64_t)r.below(1 << 20); o.a = (int64_t)r.below(64); o.b = (int64_t)r.below(64);
         } else if ((t -= (unsigned)pSnap) < (unsigned)pPersist) {
@@ -278,7 +324,11 @@ inline sim::Plan genPlan(uint64_t seed, const std::string &profile, bool thoroug
         } else if ((t -= (unsigned)pAlg) < (unsigned)pIo) {
             if (!templ) { --i; pIo = 0; continue; }
             unsigned u = (unsigned)r.below(100);
-            if (profile == "C13") {
+            if ((profile == "C13" || profile == "C14" || profile == "C17") && r.pm(profile == "C17" ? 40 : 12)) {
+                // a graph whose file is larger than any stream or block buffer (tens of KiB)
+                o.k = "bigio"; o.x = profile == "C13" ? 0 : profile == "C14" ? 1 : (int64_t)r.below(2);
+                o.a = (int64_t)r.below(1 << 16); o.b = 300 + (int64_t)r.below(600); o.y = (int64_t)r.below(1 << 20);
+            } else if (profile == "C13") {
                 if (u < 20) { o.k = "openfail"; o.x = (int64_t)r.below(5); o.y = (int64_t)r.below(9); if (o.x == 1 || o.x == 4) o.x -= 1; }
                 else { o.k = "loadraw"; bool names = r.pm(450); o.x = names ? 1 : 0; o.y = 0; o.a = (int64_t)r.below(64); o.b = (int64_t)r.below(64); o.s = genWellFormedText(r, p.lab, directed, names); }
             } else if (profile == "C14") {
@@ -287,7 +337,8 @@ inline sim::Plan genPlan(uint64_t seed, const std::string &profile, bool thoroug
             } else if (profile == "C15") {
                 bool binOk = !(p.lab == "string" || p.lab == "struct");
                 bool textOk = true;
-                if (u < 45 && binOk) { o.k = "cutall"; o.x = 1; }
+                if (u < 12 && binOk) { o.k = "cutall"; o.x = 1; o.s = genBinaryFile(r, p.lab, directed, false, true); } // every cut of a hand-made file with special index bytes
+                else if (u < 45 && binOk) { o.k = "cutall"; o.x = 1; }
                 else if (u < 55 && textOk) { o.k = "cutall"; o.x = 0; }
                 else if (u < 75 && binOk) { o.k = "loadraw"; o.x = 2; o.y = 1; o.s = genBinaryFile(r, p.lab, directed, true); }
                 else if (textOk) { o.k = "loadraw"; o.x = r.pm(700) ? 0 : 1; o.y = 1; o.s = genMalformedText(r, p.lab, p.c("wild", 0) != 0); }
@@ -306,6 +357,7 @@ inline sim::Plan genPlan(uint64_t seed, const std::string &profile, bool thoroug
             o = genMutator(r, gc, prev);
             prev = o;
             if (pNoSweep && r.pm((unsigned)pNoSweep)) o.y |= F_NOSWEEP;
+            if (forceMix && (o.k == "add" || o.k == "addmul") && r.pm(350)) o.y |= F_FORCE;
             if (p.c("orphans") && kind == LABELED && r.pm(120)) o.k = "orphan";
         }
         p.ops.push_back(o);
